@@ -10,7 +10,8 @@
 //         must_accept                                      =>  success         [completeness]
 //         PS_SUCCESS                                       =>  every authStatus == PS_CERT_AUTH_PASS  [documented contract]
 // The same source builds four targets: C03_KIND unset = mixed generator, 1 = attacker CA with copied signature (F5),
-// 2 = single soft defect (F4), 3 = revocation, 4 = history of validations over one CRL cache (prop_history).
+// 2 = single soft defect (F4), 3 = revocation, 4 = history of validations over one CRL cache (prop_history),
+// 5 = validity-date encodings x boundary years x position relative to a (movable) virtual now.
 #include "vf.h"
 #include "mint.h"
 #include "model.h"
@@ -36,8 +37,10 @@ static bool node_spec(const Case &cs, const Node &x, mint::CertSpec &s)
     s.serial = x.serial;
     s.subject = x.subj;
     s.issuer = x.issuerName;
-    s.notBefore = NOW + x.nb;
-    s.notAfter = NOW + x.na;
+    s.notBefore = cs.now + x.nb;
+    s.notAfter = cs.now + x.na;
+    s.notBeforeEnc = x.nbEnc; s.notBeforeStr = x.nbStr;
+    s.notAfterEnc = x.naEnc; s.notAfterStr = x.naStr;
     s.subjectKey = x.key;
     s.signKey = x.signKey;
     s.hash = x.hash;
@@ -88,8 +91,9 @@ static bool mint_all(Case &cs, std::string &err)
         Crl &r = *rp;
         mint::CrlSpec s;
         s.issuer = r.issuer;
-        s.nextUpdate = NOW + r.next;
-        s.thisUpdate = (r.next < 0 ? s.nextUpdate : NOW) - 7 * DAY;
+        s.nextUpdate = cs.now + r.next;
+        s.nextEnc = r.nextEnc; s.nextStr = r.nextStr;
+        s.thisUpdate = (r.next < 0 ? s.nextUpdate : cs.now) - 7 * DAY;
         for (int id : r.revokedNodes) s.revoked.push_back(cs.n[(size_t) id].serial);
         for (int e = 0; e < r.extraSerials; e++) s.revoked.push_back(Bytes{ 0x7e, (uint8_t) (k * 8 + e), 0x01 });
         s.signKey = r.signKey; s.hash = r.hash;
@@ -109,6 +113,10 @@ static bool selfcheck(const Case &cs, std::string &why)
         int v = mint::verify_cert(x.der, x.signKey);
         bool expect = (x.sig == SIG_OK || x.sig == SIG_WRONGKEY);
         if (v < 0 || (v == 1) != expect) { why = "cert " + describe_node(x) + vf::fmt(" verify=%d", v); return false; }
+        // the model's RFC 5280 reading of a forced date string must be libcrypto's reading (whenever libcrypto has one)
+        int64_t e = 0;
+        if (x.nbEnc && mint::time_to_epoch(x.nbEnc, x.nbStr, &e) && e != cs.now + x.nb) { why = "notBefore meaning " + describe_node(x); return false; }
+        if (x.naEnc && mint::time_to_epoch(x.naEnc, x.naStr, &e) && e != cs.now + x.na) { why = "notAfter meaning " + describe_node(x); return false; }
     }
     for (auto &r : cs.crls)
     {
@@ -288,8 +296,27 @@ static void prop(vf::Tape &t, vf::Ctx &c)
     if (!selfcheck(cs, err)) { c.count("discard:HARNESS-SELFCHECK-MISMATCH"); fprintf(stderr, "[c03] selfcheck mismatch: %s\n", err.c_str()); throw vf::Discard(); }
     if (c.verbose) dump_case(cs);
 
+    vfh_epoch_set(cs.now);      // MatrixSSL checks validity dates at parse time against time()
     Mx mx;
     run_matrixssl(cs, mx);
+    vfh_epoch_set(c03::NOW);
+    // a certificate that is valid now but uses a legal-yet-unusual date encoding: rejection is only counted (completeness is asserted
+    // for RFC 5280-conformant encodings inside MatrixSSL's documented year range only)
+    {
+        bool any = false;
+        for (int id : cs.chain) if (cs.n[(size_t) id].dateUnusual) any = true;
+        for (int id : cs.anchors) if (cs.n[(size_t) id].dateUnusual) any = true;
+        if (any)
+        {
+            Case plain = cs;
+            for (auto &x : plain.n) x.dateUnusual = false;
+            if (must_accept(plain))
+            {
+                bool ok = mx.called && mx.rc == PS_SUCCESS;
+                c.count(ok ? "date:unusual-encoding-valid-now:accepted" : "date:unusual-encoding-valid-now:REJECTED(counted-only)");
+            }
+        }
+    }
     judge(cs, mx, c, "");
 }
 
@@ -442,6 +469,8 @@ static void prop_history(vf::Tape &t, vf::Ctx &c)
 
 #if C03_KIND == 4
 VF_TARGET("c03_crl_history", prop_history, 768, 60)
+#elif C03_KIND == 5
+VF_TARGET("c03_dates", prop, 768, 60)
 #elif C03_KIND == 1
 VF_TARGET("c03_copied_sig", prop, 768, 60)
 #elif C03_KIND == 2
